@@ -34,9 +34,9 @@ FEATURES = ["plain", "plain", "serial-big", "resseq-big", "resseq-4col", "coord-
 
 
 def cases(tier, seed):
-    n, per = (16, 1200) if tier == "quick" else (160, 5000)
+    n, per = (16, 1200) if tier == "quick" else (1600, 5000)
     out = [{"kind": "direct", "seed": seed * 3001 + i, "n": per} for i in range(n)]
-    ne = 40 if tier == "quick" else 900
+    ne = 40 if tier == "quick" else 5000
     rng = random.Random(seed)
     for i in range(ne):
         flags = [f for f in ("--whitespace", "--keep-chain") if rng.random() < 0.5]
